@@ -14,7 +14,7 @@ from harness.trace import Recorder, _tls, install_patches, pkey, task_class
 
 PROP = "C11"
 THEOREMS = ["Lbfgsb.C11.ls_points_in_box", "Lbfgsb.C11.ls_evals_le_cap", "Lbfgsb.C11.ls_result_downhill",
-            "Lbfgsb.C11.maxStep_feasible"]
+            "Lbfgsb.C11.maxStep_feasible", "Lbfgsb.C11.ls_trials_on_ray", "Lbfgsb.C11.dcsrch_steps_in_range"]
 MODULES = ["LbfgsbVerif.Props.C11"]
 
 
@@ -120,6 +120,15 @@ def evaluate(case: Dict[str, Any]) -> Dict[str, Any]:
             if abs(hexf(s_) - c["in"][0]) > 1e-9 * max(1.0, abs(c["in"][0])):
                 diffs.append(f"dcsrch input step differs: impl {c['in'][0]} model {hexf(s_)}")
                 break
+    # ---- the stepper itself: the Lean model of DCSRCH._iterate + dcstep against every recorded call, bit for bit
+    if ent["dc"] and "tols" in ent and all(np.isfinite(c["in"][1]) and np.isfinite(c["in"][2]) for c in ent["dc"]):
+        ft, gt, xt_ = ent["tols"]
+        ans = ";".join(f"{fhex(c['in'][1])},{fhex(c['in'][2])}" for c in ent["dc"])
+        got2 = shell.driver().run([f"dcsrch {fhex(ft)} {fhex(gt)} {fhex(xt_)} {fhex(0.0)} {fhex(ent['stpmax'])} {fhex(ent['dc'][0]['in'][0])} {ans}"])
+        exp2 = "dcsrch " + ";".join(f"{fhex(c['out'][0])}:{task_class(c['out'][1])}" for c in ent["dc"])
+        if not got2 or got2[0] != exp2:
+            diffs.append(f"DCSRCH model differs from scipy's stepper: impl {exp2[:160]} | model {(got2 or [''])[0][:160]}")
+        out["tags"].append("stepper_model_compared=True")
     out["corr"] = diffs
     if nF >= 2:
         out["nontrivial"] = str(case["seed"])
@@ -140,7 +149,8 @@ def run(tier: str, seed: int) -> int:
              "projecting a gradient step, iteration index 0 or later, caps 1..20, tolerances; evaluated points / count / returned step "
              "checked on the real call; the call is replayed through the Lean model with the recorded DCSRCH answers; non-trivial = "
              "at least two objective evaluations",
-        assumptions=["DCSRCH (SciPy) is an oracle", "objective finite at the trial points"])
+        assumptions=["in the driver-level theorems DCSRCH (SciPy) is an arbitrary oracle; its Lean model (Model/Dcsrch.lean) is compared bit for bit "
+                     "with every recorded call and proved to propose steps in [0, stpmax] only", "objective finite at the trial points"])
 
 
 def replay(path: str) -> int:
